@@ -78,6 +78,10 @@ type spWorld struct {
 	gateMu sync.Mutex
 	gates  map[string]chan struct{} // neighbour address -> gate (closed = open)
 	watchCancel context.CancelFunc
+	bestMu     sync.Mutex
+	bestEvents []map[string]any
+	bestTable  map[string]any
+	bestCancel context.CancelFunc
 	srvPeers map[string]*peer
 }
 
@@ -320,6 +324,43 @@ func (w *spWorld) observe() map[string]any {
 		}
 		rib[spPrefixName(prefix.String())] = l
 	})
+	// best-path notification stream, folded in order (the table FIB/BMP/MRT consumers build)
+	w.bestMu.Lock()
+	for _, e := range w.bestEvents {
+		x := e["x"].(string)
+		if e["wd"].(bool) {
+			delete(w.bestTable, x)
+		} else {
+			w.bestTable[x] = map[string]any{"src": e["src"], "v": e["v"]}
+		}
+	}
+	w.bestEvents = nil
+	bs := map[string]any{}
+	for x := range spPrefixes {
+		if r, ok := w.bestTable[x]; ok {
+			bs[x] = r
+		} else {
+			bs[x] = map[string]any{"src": "none"}
+		}
+	}
+	w.bestMu.Unlock()
+	obs["beststream"] = bs
+	// lookups over the nested prefix pool
+	lookup := func(pfx string, opt apiutil.LookupOption) []string {
+		res := []string{}
+		_ = w.ss.s.ListPath(apiutil.ListPathRequest{TableType: api.TableType_TABLE_TYPE_GLOBAL, Family: bgp.RF_IPv4_UC,
+			Prefixes: []*apiutil.LookupPrefix{{Prefix: pfx, LookupOption: opt}}}, func(prefix bgp.NLRI, paths []*apiutil.Path) {
+			res = append(res, spPrefixName(prefix.String()))
+		})
+		sort.Strings(res)
+		return res
+	}
+	obs["lookup"] = map[string]any{
+		"exactx1":  lookup(spPrefixes["x1"], apiutil.LOOKUP_EXACT),
+		"longerx1": lookup(spPrefixes["x1"], apiutil.LOOKUP_LONGER),
+		"longer16": lookup("10.1.0.0/16", apiutil.LOOKUP_LONGER),
+		"shortx2":  lookup(spPrefixes["x2"], apiutil.LOOKUP_SHORTER),
+	}
 	obs["sess"] = sess
 	obs["views"] = views
 	obs["mviews"] = mviews
@@ -506,6 +547,22 @@ func (w *spWorld) softReset(target string, dir api.ResetPeerRequest_Direction) {
 	_ = w.ss.s.ResetPeer(context.Background(), &api.ResetPeerRequest{Address: addr, Soft: true, Direction: dir})
 }
 
+func (w *spWorld) startBestWatcher() {
+	ctx, cancel := context.WithCancel(context.Background())
+	w.bestCancel = cancel
+	w.bestTable = map[string]any{}
+	vpMust(w.ss.s.WatchEvent(ctx, WatchEventMessageCallbacks{
+		OnBestPath: func(paths []*apiutil.Path, _ time.Time) {
+			w.bestMu.Lock()
+			for _, p := range paths {
+				pr := w.project(p.Attrs)
+				w.bestEvents = append(w.bestEvents, map[string]any{"x": spPrefixName(p.Nlri.String()), "wd": p.Withdrawal, "src": pr["src"], "v": pr["v"]})
+			}
+			w.bestMu.Unlock()
+		},
+	}, WatchBestPath(true)))
+}
+
 func (w *spWorld) release(name string) {
 	a := w.peers[name].addr.String()
 	w.gateMu.Lock()
@@ -553,6 +610,7 @@ func spRun(t *testing.T, tr *vpTrace, tid int, b *spBehaviour) {
 			w.addPeer(n)
 		}
 		w.definePolicies()
+		w.startBestWatcher()
 		synctest.Wait()
 		tr.Emit(map[string]any{"ev": "Reset", "tid": tid, "peers": b.Peers})
 		for _, st := range b.Steps {
@@ -582,6 +640,9 @@ func spRun(t *testing.T, tr *vpTrace, tid int, b *spBehaviour) {
 		}
 		synctest.Wait()
 		tr.Emit(map[string]any{"ev": "Settle", "obs": w.observe()})
+		if w.bestCancel != nil {
+			w.bestCancel()
+		}
 		w.ss.stop()
 		for _, n := range names {
 			w.peers[n].closeConn()
